@@ -1,17 +1,64 @@
-(* C13 — property theorems (statements only; proofs live in Proofs*.v). *)
+(* C13 — property theorems (statements only; proofs live in Proofs*.v).
+   `run (s, cempty) ops` is the model with the memoisation fields as state, started on fresh objects;
+   `exec` is the object graph after a history; `prun` / `pget` ... are the same access paths without memoisation. *)
 From Coq Require Import ZArith NArith QArith Bool List.
-Require Import QV.C13.Model QV.C13.Pure QV.C13.Spec QV.C13.Proofs QV.C13.ProofsViews.
+Require Import QV.C13.Model QV.C13.Pure QV.C13.Spec QV.C13.Proofs QV.C13.ProofsViews QV.C13.ProofsCache
+               QV.C13.ProofsFinal.
 Import ListNotations.
 
-(* membership is membership in the domain of the denoted mapping (no well-formedness needed) *)
+(* VIEWS: in every state reachable by any history (lookups, views, volatile queries, constant changes, any cache
+   population), every access path agrees with the mapping the current scope denotes *)
+Theorem C13_views : forall s0 ops s c d,
+  exec (s0, cempty) ops = (s, c) -> wf_scope s = true -> denote_scope s = Ok d ->
+  (forall x, fst (get s c x) = of_opt (lookup d x)) /\
+  (forall x, contains s x = is_some (lookup d x)) /\
+  fst (keys s c) = Ok (domain s) /\ fst (iter s c) = Ok (domain s) /\
+  fst (len s c) = Ok (Z.of_nat (length (domain s))) /\
+  exists d', fst (as_dict s c) = Ok d' /\ fst (items s c) = Ok d' /\ map fst d' = domain s /\
+             forall x, lookup d' x = lookup d x.
+Proof. exact views_reachable. Qed.
+Print Assumptions C13_views.
+
+(* membership is membership in the domain (no well-formedness needed, no state involved) *)
 Theorem C13_contains_domain : forall s x, contains s x = mem x (domain s).
 Proof. exact contains_domain. Qed.
 Print Assumptions C13_contains_domain.
 
-(* every access path, computed without memoisation, agrees with the denoted mapping *)
+(* HISTORY: after any history, any further sequence of operations returns what it returns on fresh objects of
+   the same structure (the memoisation fields are unobservable) *)
+Theorem C13_history : forall s ops1 ops2,
+  run (exec (s, cempty) ops1) ops2 = run (fst (exec (s, cempty) ops1), cempty) ops2.
+Proof. exact history_independent. Qed.
+Print Assumptions C13_history.
+
+(* ... and the model with memoisation equals the access paths computed without any memoisation *)
+Theorem C13_cache_refinement : forall s ops, run (s, cempty) ops = prun s ops.
+Proof. exact run_fresh. Qed.
+Print Assumptions C13_cache_refinement.
+
+(* VOLATILE: in every reachable state, a parameter is reported volatile exactly when it depends on a constant
+   marked volatile at the top; a loop index shadows *)
+Theorem C13_volatile : forall s0 ops s c ks,
+  exec (s0, cempty) ops = (s, c) -> wf_scope s = true -> fst (vol s c) = Ok ks ->
+  forall x, mem x ks = depends_on_volatile s x.
+Proof. exact volatile_reachable. Qed.
+Print Assumptions C13_volatile.
+
+(* CHANGE: change_constants yields (syntactically) the scope rebuilt from the changed constants, whatever the
+   caches hold, hence the same denotation; it warns exactly when a non-volatile constant is changed *)
+Theorem C13_change : forall s c nc,
+  ch_scope (cc s c nc) = rebuild s nc /\
+  denote_scope (ch_scope (cc s c nc)) = denote_scope (rebuild s nc) /\
+  ch_warned (cc s c nc) = changes_non_volatile s nc.
+Proof.
+  intros s c nc. pose proof (proj1 (cc_scope_rebuild s c nc)) as E.
+  split; [exact E|]. split; [now rewrite E|exact (cc_warned s c nc)].
+Qed.
+Print Assumptions C13_change.
+
+(* the cache-free forms (used by check_corr next to the stateful model) *)
 Theorem C13_views_nocache : forall s d, wf_scope s = true -> denote_scope s = Ok d ->
   (forall x, pget s x = of_opt (lookup d x)) /\
-  (forall x, contains s x = is_some (lookup d x)) /\
   pkeys s = Ok (domain s) /\ piter s = Ok (domain s) /\ plen s = Ok (Z.of_nat (length (domain s))) /\
   exists d', pasd s = Ok d' /\ pitems s = Ok d' /\ map fst d' = domain s /\ forall x, lookup d' x = lookup d x.
 Proof.
@@ -19,21 +66,22 @@ Proof.
   destruct (pkeys_pasd_denote s Hwf d Hd) as [Hk [d' [Ha [Hf Hl]]]].
   destruct (piter_plen_denote s Hwf d Hd) as [Hi Hn].
   split; [exact (pget_denote s Hwf d Hd)|].
-  split; [intros x; rewrite contains_domain; symmetry; exact (denote_domain s Hwf d Hd x)|].
   split; [exact Hk|]. split; [exact Hi|]. split; [exact Hn|].
   exists d'. rewrite pitems_pasd. auto.
 Qed.
 Print Assumptions C13_views_nocache.
 
-(* a parameter is reported volatile exactly when it depends on a constant marked volatile (loop index shadows) *)
 Theorem C13_volatile_nocache : forall s ks, wf_scope s = true -> pvol s = Ok ks ->
   forall x, mem x ks = depends_on_volatile s x.
 Proof. intros s ks Hwf Hv. exact (pvol_depends s Hwf ks Hv). Qed.
 Print Assumptions C13_volatile_nocache.
 
-(* change_constants yields (syntactically) the scope rebuilt from the changed constants, whatever the caches
-   hold; it warns exactly when a constant that is not marked volatile is changed *)
-Theorem C13_change : forall s c nc,
-  ch_scope (cc s c nc) = rebuild s nc /\ ch_warned (cc s c nc) = changes_non_volatile s nc.
-Proof. intros s c nc. split; [exact (proj1 (cc_scope_rebuild s c nc))|exact (cc_warned s c nc)]. Qed.
-Print Assumptions C13_change.
+(* non-vacuity of the hypotheses: a three-layer stack (mapping over loop index shadowing a volatile constant over
+   mapping over constants), after a history that populates caches and changes a constant *)
+Example C13_hypotheses_satisfiable :
+  let st := exec (ex_scope, cempty) [OGet 3%N; OAsDict; OVol; OChange [(1%N, 9#1)]; OGet 2%N] in
+  wf_scope (fst st) = true /\
+  denote_scope (fst st) = Ok [(0%N, 5#1); (1%N, 7#1); (2%N, 10#1); (3%N, 50#1)] /\
+  fst (vol (fst st) (snd st)) = Ok [2%N; 3%N] /\
+  c_cache (snd st) = [(2%N, 10#1)].
+Proof. vm_compute. auto. Qed.
